@@ -26,7 +26,8 @@ add('C15', 'exploration', 'lock-step reference interpreter on the real Prior ove
     'Every declaration sequence up to length 3 (quick) / 5 (thorough) over a 15-letter alphabet of valid and '
     'malformed declarations is executed on the real Prior next to a reference interpreter; after each '
     'declaration the key/dist lists are compared (rejections must be ValueError/TypeError and leave no trace), '
-    'at the end dimensionality and both transforms are checked for (d,) and (n,d) inputs. Exhaustive over the '
+    'at the end (and, in a second execution of every sequence, after every declaration) dimensionality and both transforms '
+    'are checked for (d,) and (n,d) inputs; fixed values rotate over Python and NumPy numeric types. Exhaustive over the '
     'alphabet to the stated length, sampled over unit-cube inputs.',
     'scipy.stats ppf/isf as the inverse CDF reference; alphabet and length bound define the reach', 'DESIGN.md#C15')
 
@@ -49,7 +50,8 @@ add('C01', 'exploration', 'invariant hook on the live Sampler (real contains() o
 add('C02', 'exploration', 'reference-estimator monitor compared with the accessors at every batch boundary; proposal counts observed at the bound.sample() boundary',
     'A reference estimator recomputes per-shell counts, volumes, mean likelihoods, Kish sizes, log_z, n_eff, eta and '
     'posterior weights from the stored arrays at every add_bound/add_samples/write/run-return/toggle/resume and '
-    'compares at rel. 1e-10; the number of proposals the bound handed out is observed independently of the counters.',
+    'compares at rel. 1e-10; the proposals the bound hands out are captured at its sample() boundary: per-call increase, '
+    'a running total per shell kept by the monitor, and conservation (handed out = rejected by a later bound + used).',
     'bounds[i].log_v taken from the real bound (C08 calibrates it); tolerance 1e-10', 'DESIGN.md#C02')
 
 add('C03', 'exploration', 'history + reference: every evaluated batch and every posterior row re-evaluated with the harness-owned pure likelihood; uniqueness and exactly-once evaluation log',
@@ -61,20 +63,21 @@ add('C03', 'exploration', 'history + reference: every evaluated batch and every 
 add('C07', 'exploration', 'post-condition monitor on the real bound classes (sample => contains and cube, compute/split => construction points enclosed, neural/nautilus => inside outer bound)',
     'Post-conditions checked on bounds of every class built from generated landscapes (d=1..8, clustered, elongated, '
     'curved, face/corner hugging, wrapped), with split/sample histories, periodic shifts and pool sampling; >= 10^4 '
-    'sampled points per bound.', 'enlargement >= 1.02; degenerate generated sets are skipped', 'DESIGN.md#C07')
+    'sampled points per bound; histories include trim(); every fifth basic bound is built from 12 000-30 000 points.', 'enlargement >= 1.02; degenerate generated sets are skipped', 'DESIGN.md#C07')
 
 add('C08', 'exploration', 'statistical monitor: z-test of reported volume and two-sample chi-square of the sample stream against an independent box-union reference filtered through contains()',
     'For unions with overlapping members and NautilusBounds (networks, periodic, pools, after an HDF5 round trip) '
     'the reported volume is z-tested (|z|<6.1) against the Monte-Carlo measure of {contains} and the sample stream is '
     'chi-square tested (p>1e-9) against uniform-over-contains over multiplicity x octant cells; ellipsoid log-volume '
-    'is checked against the matrix contains() uses.',
+    'is checked against the matrix contains() uses; for trimmed unions the volume is also tested right after trim().',
     'false-alarm probability <= ~4e-9 per bound; power stated in DESIGN (a missing 1/multiplicity correction at >= 1 % overlap is detected)',
     'DESIGN.md#C08')
 
 add('C09', 'exploration', 'differential monitor: original bound is the reference model of its read-back copy, driven in lock-step under a cloned generator',
     'Bounds of every class and option set, in states reached by split/trim/sample histories, are written, read back '
     'and compared call by call (contains on probes, log_v, sample streams across refills); update() is compared with '
-    'a fresh write() and read back again.', 'bit-exact equality; split() on a read-back union not part of the property',
+    'a fresh write() and read back again; unions with more than ten members, unsorted periodic index sets and bounds sampled '
+    'through NautilusPool are included.', 'bit-exact equality; split() on a read-back union not part of the property',
     'DESIGN.md#C09')
 
 add('C10', 'exploration', 'offline checker over the boundary event log (run / add_samples / evaluate_likelihood / likelihood / pool.map) with a virtual clock',
@@ -82,13 +85,14 @@ add('C10', 'exploration', 'offline checker over the boundary event log (run / ad
     'n_eff targets, n_batch incl. 1, likelihood pools, resumes) is checked: rows == n_batch == rows the likelihood '
     'really received == increase of n_like, one batch per step, rows in [0,1)^d, n_like == all rows ever evaluated '
     'across resumes, no batch started over budget or after the virtual timeout, run() return value recomputed from '
-    'the stored samples.',
+    'the stored samples; the batch size is compared with the CONFIGURED n_batch (also for pools whose size does not divide it).',
     'virtual time (one unit per clock reading); success predicate skipped within 1e-6 of the n_eff target', 'DESIGN.md#C10')
 
 add('C12', 'exploration', 'snapshot/prefix monitor at every batch boundary + differential between the three ways of requesting the discard',
     'Along histories with toggles at arbitrary boundaries, slices and resumes: explored never reverts, bound list and '
     'geometry digests frozen after exploration, no empty shell, earlier snapshots are prefixes of later arrays, view ON '
-    '= rows after shell_end_exp, any recurring (flag, stored state) yields bit-identical statistics and posterior(); '
+    '= rows stored after exploration ended (recorded by the monitor itself) and each of them evaluated after exploration '
+    'ended, any recurring (flag, stored state) yields bit-identical statistics and posterior(); '
     'three request paths (run(), setter, setter after resume) agree bit for bit at the same state and at the end.',
     'bit-exact comparison; geometry digest excludes proposal caches', 'DESIGN.md#C12')
 
@@ -96,7 +100,8 @@ add('C14', 'exploration', 'structural post-conditions on every equal-weight draw
     'On weight vectors from real runs (with zero-weight rows, discarded views, mid-exploration states) every draw is '
     'decoded into per-row multiplicities and checked (floor/floor+1, order, no repeats for boost<=1, log_l/blob '
     'alignment, uniform normalised weights, weighted posterior untouched); summed multiplicities over 200/1500 draws '
-    'must stay within a 1e-9 Bernstein bound of D*r overall and in eight weight-quantile groups.',
+    'must stay within a 1e-9 Bernstein bound of D*r overall and in eight weight-quantile groups; rows whose summed expectation '
+    'over all draws is < 1e-12 must never appear (1.7e8 such row-draws in quick); file-backed and resumed samplers included.',
     'rows identify their source because weighted rows are distinct (C03); false-alarm <= ~2e-8 per (run, boost)', 'DESIGN.md#C14')
 
 add('C04', 'exploration', 'ensemble statistics over independent seeds with exact Student-t / chi-square thresholds for the actual ensemble size',
@@ -111,20 +116,26 @@ add('C05', 'exploration', 'differential monitor: uninterrupted seeded run vs the
     'For small runs every batch boundary k is visited: run(n_like_max=k*n_batch) slices, a new Sampler resumed from the '
     'checkpoint copy of every k (some in a fresh interpreter), random multi-stop histories with non-multiples and '
     'virtual-clock timeouts, and toggle histories resumed after every step must all end bit-identical to the '
-    'reference; no unit point may be evaluated on both sides of a cut.',
+    'reference; no unit point may be evaluated on both sides of a cut. Variants: a run started with resume=False over the '
+    'finished checkpoint of an earlier run, a one-update-per-bound configuration (empty shells removed), and a deep '
+    'configuration in which every bound refills its proposal cache after the last full write.',
     'exhaustive over batch boundaries per run, sampled over configurations; relies on determinism (C11)', 'DESIGN.md#C05')
 
 add('C06', 'fault_enumeration', 'syscall-level fault enumeration on the real process: strace census of every call on the checkpoint path + SIGKILL injection at each, leftover file compared with completed states, continuation under invariant hooks',
     'Every state-changing system call a checkpointed run issues on the checkpoint file or its temporary is a crash '
     'point (thorough: all ~900-1500 per configuration, three configurations; quick: stratified 64). After SIGKILL at that '
     'call the leftover file must be loadable and logically equal to the last completed or the in-progress state, and '
-    'a new process must finish the run from it with the C01/C02 hooks silent.',
+    'a new process must finish the run from it (in the directory the kill left behind, leftover temporary included) with '
+    'the C01/C02 hooks silent. Checkpoint paths: plain, a relative symbolic link into another directory, a not yet existing '
+    'nested directory.',
     'process death only (page cache survives); strace kills on syscall entry; census and kill runs are the same deterministic script', 'DESIGN.md#C06')
 
 add('C11', 'exploration', 'pairwise differential monitor (SHA-256 of results) between a base run and variants that must be invisible; pool workers perturbed to complete out of order',
     'A base run is compared bit for bit with: the same again, vectorised likelihood, likelihood pools of 1/2/4 workers '
     'whose workers sleep point-dependent times (completion order logged; permuted batches counted), verbose output, '
-    'a checkpoint file, a run observed between batches by random read-only accessor calls, and repeated sampler-pool runs.',
+    'a checkpoint file, a run observed between batches by random read-only accessor calls (also in a one-update-per-bound '
+    'configuration with empty shells), and repeated sampler-pool runs; pools of 3 workers with batch sizes they do not divide; a '
+    'variant that raises or exhausts a budget the base run did not need is a difference.',
     'threads pinned to 1; scalar/vectorised compared only where both forms are verified bit-identical', 'DESIGN.md#C11')
 
 
